@@ -87,7 +87,7 @@ theorem sum_map_erase {l : List Addr} {f : Addr → Nat} {x : Addr} (hx : x ∈ 
 
 /-! ### termination: `mu` strictly decreases -/
 
-theorem mu_decr_lt (k : Addr) (c : Cfg) : mu (decr k c) ≤ mu c := by
+theorem mu_decr_le (k : Addr) (c : Cfg) : mu (decr k c) ≤ mu c := by
   unfold decr
   by_cases hk : k ∈ c.st.live
   · simp only [hk, if_true]
@@ -148,7 +148,7 @@ theorem mu_step_lt (c : Cfg) (h : c.stk ≠ []) : mu (step c) < mu c := by
       omega
   | ⟨o, k :: ks⟩ :: rest =>
     simp only
-    have h1 := mu_decr_lt k { c with stk := ⟨o, ks⟩ :: rest }
+    have h1 := mu_decr_le k { c with stk := ⟨o, ks⟩ :: rest }
     have h2 : mu { c with stk := ⟨o, ks⟩ :: rest } + 1 = mu c := by
       unfold mu
       simp [hs]
